@@ -376,3 +376,120 @@ class H:
     def case(self, entry, tag):
         from harness.core import Case
         return Case(entry, self.cfg + [self.n] + self.ints, self.blobs, tag)
+
+
+# ---- parsing a rendered history result back into structure (for the oracles) ------------------------
+def _parse_resp(r, j):
+    """enc_opt enc_bytes payload ++ [positive, valid, unexpected, code] -> (dict, next index)"""
+    if r[j] == 0:
+        payload = None
+        j += 1
+    else:
+        n = r[j + 1]
+        payload = bytes(r[j + 2:j + 2 + n])
+        j += 2 + n
+    d = {'payload': payload, 'positive': r[j] == 1, 'valid': r[j + 1] == 1, 'unexpected': r[j + 2] == 1, 'code': r[j + 3]}
+    return d, j + 4
+
+
+def _parse_events(r, i):
+    n = r[i]
+    i += 1
+    evs = []
+    for _ in range(n):
+        t = r[i]
+        if t == 1:
+            evs.append(('F',)); i += 1
+        elif t == 2:
+            ln = r[i + 1]
+            evs.append(('S', bytes(r[i + 2:i + 2 + ln]))); i += 2 + ln
+        elif t == 3:
+            evs.append(('W', r[i + 1], r[i + 2])); i += 3
+        elif t == 4:
+            evs.append(('CB',)); i += 1
+        elif t == 5:
+            ln = r[i + 3]
+            evs.append(('ALGO', r[i + 1], r[i + 2], bytes(r[i + 4:i + 4 + ln]))); i += 4 + ln
+        elif t == 6:
+            evs.append(('TO', r[i + 1])); i += 2
+        else:
+            raise RuntimeError('bad trace event %r at %d' % (t, i))
+    return evs, i
+
+
+def parse_calls(r, ncalls):
+    """-> ([{kind: 'none'|'ok'|'returned'|'raised'|'value', err, resp, sdata, events, end}], final state list)"""
+    i = 0
+    out = []
+    for _ in range(ncalls):
+        d = {'err': None, 'resp': None, 'sdata': None, 'value': None}
+        k = r[i]
+        if k == 0:
+            if r[i + 1] == 0:
+                d['kind'] = 'none'
+                i += 2
+            elif r[i + 1] == 1:
+                d['kind'] = 'ok'
+                d['resp'], i = _parse_resp(r, i + 2)
+                n = r[i]
+                d['sdata'] = r[i + 1:i + 1 + n]
+                i += 1 + n
+            else:
+                raise RuntimeError('value-returning calls must be parsed by the property module')
+        elif k == 1:
+            d['kind'] = 'returned'
+            d['resp'], i = _parse_resp(r, i + 1)
+        else:
+            d['kind'] = 'raised'
+            d['err'] = r[i + 1]
+            if r[i + 2] == 1:
+                d['resp'], i = _parse_resp(r, i + 3)
+            else:
+                i += 3
+        d['events'], i = _parse_events(r, i)
+        d['end'] = r[i]
+        i += 1
+        out.append(d)
+    return out, r[i:]
+
+
+def case_ops(c):
+    """decode the ops of a history case (mirror of Model/History.v decode_ops) for the oracles"""
+    a = list(c.ints)
+    b = list(c.blobs)
+    cfgv = a[:CFG_LEN]
+    pos = CFG_LEN
+    nops = a[pos]
+    pos += 1
+    ops = []
+    for _ in range(nops):
+        opc = a[pos]
+        if opc == 0:
+            ops.append(('spr_enter', a[pos + 1] == 1)); pos += 2
+        elif opc == 1:
+            ops.append(('spr_exit',)); pos += 1
+        elif opc == 2:
+            ops.append(('ov_enter', a[pos + 1], b[0], b[1])); b = b[2:]; pos += 2
+        elif opc == 3:
+            ops.append(('ov_exit',)); pos += 1
+        elif opc == 4:
+            callid, nargs = a[pos + 1], a[pos + 2]
+            args = a[pos + 3:pos + 3 + nargs]
+            pos += 3 + nargs
+            ncb, nfr = a[pos], a[pos + 1]
+            pos += 2
+            cb, b = b[:ncb], b[ncb:]
+            reps = []
+            for _ in range(nfr):
+                d, kind = a[pos], a[pos + 1]
+                pos += 2
+                if kind == 0:
+                    reps.append((d, b[0])); b = b[1:]
+                else:
+                    reps.append((d, None))
+            ops.append(('call', callid, args, cb, reps))
+        elif opc == 5:
+            ops.append(('set_cfg', a[pos + 1], a[pos + 2])); pos += 3
+        elif opc == 6:
+            ops.append(('advance', a[pos + 1])); pos += 2
+    return cfgv, ops
